@@ -1,7 +1,6 @@
 """C12 — user-triggered termination reaches every process exactly once (E5: simulated ranks around the real
-mca/termdet/user_trigger module).  Single-process part only; real-MPI runs of the user-triggered JDF template are added
-by the coordinator."""
-import os, array
+mca/termdet/user_trigger module) + real-MPI runs of generated user-triggered PTG programs (E1 `utt` profile)."""
+import os, array, random
 
 META = dict(
     level='exploration', engine='E5 simulated ranks around the real user_trigger module',
@@ -82,6 +81,40 @@ def run(ctx):
         for smp in r.of('sample'):
             ctx.sample(smp)
     ctx.distinct.update(hashes)
+    mpi_part(ctx, thorough)
     ctx.cov['exhaustive_box'] = 'every N in 1..%d with every root' % box
     ctx.cov['sampled'] = 'N uniform in 65..4096 plus powers of two +-1, roots 0, N-1 and 14 random'
     ctx.cov['flavours'] = ['asan', 'rel']
+
+
+def mpi_part(ctx, thorough):
+    """real MPI: generated reduction trees compiled with `%option termdet = "user-triggered"`; a CTL-only END task on the rank
+    that owns its placement key calls taskpool_set_nb_tasks(0); every rank must run all its instances once and terminate
+    (completion callback once per rank, parsec_context_wait returns on every rank: stall rule otherwise)."""
+    import e1suite, e1run, e1gen, e1
+    S = e1suite.Suite(ctx, {'once', 'values', 'final'}, profile='utt')
+    nprog = 40 if thorough else 4
+    ranks = [1, 2, 3, 4, 5, 8] if thorough else [2, 3, 4]
+
+    def post(res, refs, recs, finals, marks, r, cfg, feat, files, what):
+        for rk in range(cfg.ranks):
+            n = sum(1 for m in marks if m[0] == rk and m[1] == 2)
+            if n != 1:
+                ctx.violation('mpi:callback-count', 'rank %d ran the termination callback %d times — %s' % (rk, n, what), r, files); res['status'] = 'violation'; return
+        ctx.add_cov('mpi_runs_judged'); ctx.max_cov('mpi_max_ranks', cfg.ranks)
+    S.post = post
+
+    def one(i):
+        seed = ctx.seed * 100000 + 97000 + i
+        rnd = random.Random(seed)
+
+        def cfgs(vi, r2):
+            return [e1run.Cfg(sched=r2.choice(['lfq', 'ap', 'll']), cores=r2.choice([1, 2]), ranks=r2.choice(ranks), place='rand', pseed=r2.randint(1, 10 ** 6),
+                              seed=ctx.seed, mca={'runtime_comm_coll_bcast': 0}) for _ in range(6 if thorough else 3)]
+        return S.do_program(i, seed, [(rnd.choice(['asan', 'rel']), ())], cfgs, gen_kw=dict(min_tasks=2))
+    for rs in ctx.pmap(one, range(nprog), jobs=3):
+        for res in rs:
+            if res['status'] in ('ok', 'violation', 'known'):
+                ctx.evaluations += 1
+                if res['status'] == 'ok': ctx.distinct.add('mpi/%d/%s' % (res['seed'], res['cfg'].ident()))
+    for k, v in S.stats.items(): ctx.cov['mpi_' + k] = v
